@@ -75,6 +75,17 @@ class Evaluator(Folder):
     def _fold(self, e: ast.expr) -> Any:
         if isinstance(e, ast.Call) and dotted(e.func) == "set" and len(e.args) <= 1 and not e.keywords and "set" not in self.env:
             return set(self.fold(e.args[0])) if e.args else set()  # mutable, shared by reference as in the evaluated program
+        if isinstance(e, ast.Call) and isinstance(e.func, ast.Attribute) and e.func.attr in ("pop", "popitem", "popleft") and not e.keywords:
+            # value-returning mutators of a mutable collection of the evaluated program (work lists, stacks)
+            try:
+                recv = self.fold(e.func.value)
+            except Unfoldable:
+                recv = NotImplemented
+            if isinstance(recv, (list, set, dict)) and e.func.attr in ("pop", "popitem"):
+                try:
+                    return getattr(recv, e.func.attr)(*[self.fold(a) for a in e.args])
+                except (IndexError, KeyError) as ex:
+                    raise Raised(type(ex).__name__, e)
         if isinstance(e, ast.Yield):
             self.yielded.append(self.fold(e.value) if e.value is not None else None)
             return None
@@ -205,6 +216,30 @@ class Evaluator(Folder):
                 else:
                     f = st.exc.func if isinstance(st.exc, ast.Call) else st.exc
                     name = (dotted(f) or "?").split(".")[-1]
+                    # `raise helper(...)` / `raise obj`: what is raised is the object the expression evaluates to
+                    target = None
+                    if self.repo is not None and self.mod is not None and isinstance(f, (ast.Name, ast.Attribute)):
+                        d0 = dotted(f) or ""
+                        if isinstance(f, ast.Attribute) and isinstance(f.value, ast.Name) and f.value.id in ("self", "cls") and self.cls is not None:
+                            target = self.repo.lookup_method(self.cls, f.attr)
+                        elif d0.split(".")[0] in self.env:
+                            target = self.env.get(d0) if "." not in d0 else "value"
+                        else:
+                            try:
+                                target = self.repo.resolve_expr(self.mod, f, self.cls)
+                            except Exception:
+                                target = None
+                    if target is not None and not isinstance(target, ClassInfo) and type(target).__name__ != "External":
+                        v = self.fold(st.exc)
+                        if isinstance(v, AExc):
+                            r0 = Raised(v.cls_name, st)
+                            r0.exc = v  # type: ignore
+                            raise r0
+                        if isinstance(v, AObj):
+                            r0 = Raised(v._cls_.name, st)
+                            r0.exc = v  # type: ignore
+                            raise r0
+                        raise Unfoldable("raise of %r" % (v,))
                     if isinstance(st.exc, ast.Call):
                         kw = {}
                         for k in st.exc.keywords:
